@@ -92,6 +92,9 @@ def strategy(tier):
                 "rng_seed": draw(st.integers(0, 2 ** 31 - 1)), "keep_zero": draw(st.sampled_from([True, True, False])),
                 "verbose": draw(st.sampled_from([True, False])), "plain_signals": draw(st.booleans()),
                 "prealloc": draw(st.sampled_from([False, False, True])),
+                # call history: the block was last evaluated at *other* input values, the inputs were re-assigned since
+                # (a sweep over design points), so every output still holds a state that does not belong to the inputs
+                "stale": draw(st.sampled_from([False, False, True])),
                 "bare": draw(st.booleans())}
 
     @st.composite
@@ -383,7 +386,21 @@ def check_case(case):
             sig[o] = mk(o)
         mods.append(HMod([sig[i] for i in ins], [sig[o] for o in outs], spec))
     blk = mods[0] if case["template"] == "single" else pym.Network(mods)
-    blk.response()
+    if case.get("stale") and not via_base and all(n in B["sources"] for n in fs):
+        keep = {n: sig[n].state for n in B["sources"]}
+        for n in B["sources"]:
+            v = keep[n]
+            sig[n].state = (v * 1.25 + (0.125 if not np.iscomplexobj(v) else 0.125j)) if isinstance(v, np.ndarray) else v * 1.25
+        try:
+            with np.errstate(all="ignore"):
+                blk.response()
+            labels.append("outputs_stale_before_call")
+        except Exception:
+            labels.append("stale_point_outside_domain")
+        for n in B["sources"]:
+            sig[n].state = keep[n]
+    else:
+        blk.response()
     full = ref.evaluate(base)                      # reference values of every signal at the base point
     frozen = [n for n in fs if n not in B["sources"]]
     x_before = {n: sig[n].state for n in fs}
